@@ -12,7 +12,7 @@ from .core import Log, make_function, tagged_node
 def gate_node(name, kind, params, log, decide, targets=None, when=None, default_open=True, multi_target=False, fallback=None, wait_for=(), emit=(), cache=False):
     """A gate whose routing function is `decide(args_dict)` (a Python callable evaluated at run time, logged)."""
     body = [f"_LOG.calls.append(({name!r}, {{{', '.join(f'{p!r}: {p}' for p in params)}}}))",
-            f"return _DECIDE({{{', '.join(f'{p!r}: {p}' for p in params)}}})"]
+            f"return _LOG.decided({name!r}, _DECIDE({{{', '.join(f'{p!r}: {p}' for p in params)}}}))"]
     fn = make_function(name, params, {}, body, {"_LOG": log, "_DECIDE": decide})
     kw = {}
     if wait_for:
@@ -99,7 +99,7 @@ def expect_gated(spec):
 
 # ----------------------------------------------------------------------------------------------- loops
 def gen_loop(rng: random.Random):
-    return {"family": "loop", "limit": rng.randint(0, 5), "body_len": rng.randint(1, 3), "gate": rng.choice(["route", "ifelse"]), "exit": rng.choice(["END", "node"]),
+    return {"family": "loop", "emit_from": rng.choice(["last", "last", "first"]), "limit": rng.randint(0, 5), "body_len": rng.randint(1, 3), "gate": rng.choice(["route", "ifelse"]), "exit": rng.choice(["END", "node"]),
             "sync": rng.choice(["direct", "direct", "signal"]), "nested": rng.random() < 0.25, "start": rng.choice([0, 0, 2]), "order_seed": rng.randrange(1000),
             "max_iterations": rng.choice([None, None, "exact", "short", 1000])}
 
@@ -117,7 +117,8 @@ def build_loop(spec, log=None):
     for j, n in enumerate(names):
         src = f"c{j}"
         dst = f"c{j + 1}" if j < k - 1 else "c0"
-        emit = ("done",) if (spec["sync"] == "signal" and j == k - 1) else ()
+        emit_at = k - 1 if spec.get("emit_from", "last") == "last" else 0
+        emit = ("done",) if (spec["sync"] == "signal" and j == emit_at) else ()
         nodes.append(tagged_node(n, [src], [dst], log, op="sum", emit=emit))
     limit = spec["limit"]
     exit_target = END if spec["exit"] == "END" else "finish"
@@ -184,3 +185,87 @@ def build_signal(spec, log=None):
     rng = random.Random(spec["order_seed"])
     rng.shuffle(nodes)
     return Graph(nodes), log
+
+
+# ----------------------------------------------------------------------------------------------- routing state machines
+def gen_machine(rng: random.Random):
+    """Two-level routing loops (dispatch gate -> optional inner gate -> workers that advance a shared `phase`)."""
+    n_phase = rng.randint(1, 3)
+    n_workers = rng.randint(1, 3)
+    workers = [f"w{k}" for k in range(n_workers)]
+    inner = rng.random() < 0.6
+    phases = [f"p{k}" for k in range(n_phase)] + ["done"]
+    spec = {"family": "machine", "phases": phases, "workers": workers, "inner": inner, "inner_kind": rng.choice(["ifelse", "route"]) if n_workers >= 2 else "route",
+            "dispatch_open": rng.random() < 0.7, "inner_open": rng.random() < 0.7, "finish": rng.choice(["node", "END"]), "order_seed": rng.randrange(1000),
+            "worker_next": {w: {ph: rng.randint(i + 1, n_phase) for i, ph in enumerate(phases[:-1])} for w in workers},
+            "dispatch_table": {}, "inner_table": {}, "extra_output": rng.random() < 0.5}
+    for i, ph in enumerate(phases[:-1]):
+        spec["dispatch_table"][ph] = ("inner" if rng.random() < 0.6 else workers[0]) if inner else rng.choice(workers)
+        spec["inner_table"][ph] = rng.choice(workers[:2] if spec["inner_kind"] == "ifelse" else workers)
+    return spec
+
+
+def build_machine(spec, log=None):
+    log = log or Log()
+    phases, workers = spec["phases"], spec["workers"]
+    fin = "finish" if spec["finish"] == "node" else END
+    nodes = []
+    d_targets = (["inner", workers[0]] if spec["inner"] else list(workers)) + [fin]
+
+    def d_decide(a):
+        return fin if a["phase"] == "done" else spec["dispatch_table"][a["phase"]]
+
+    nodes.append(gate_node("dispatch", "route", ["phase"], log, d_decide, targets=d_targets, default_open=spec["dispatch_open"]))
+    if spec["inner"]:
+        def i_decide(a):
+            t = spec["inner_table"].get(a["phase"], workers[0])
+            return (t == workers[0]) if spec["inner_kind"] == "ifelse" else t
+        if spec["inner_kind"] == "ifelse":
+            nodes.append(gate_node("inner", "ifelse", ["phase", "sev"], log, i_decide, when=(workers[0], workers[1]), default_open=spec["inner_open"]))
+        else:
+            nodes.append(gate_node("inner", "route", ["phase", "sev"], log, i_decide, targets=list(workers), default_open=spec["inner_open"]))
+    for w in workers:
+        table = spec["worker_next"][w]
+        body = [f"_LOG.calls.append(({w!r}, {{'phase': phase, 'sev': sev}}))", f"return _PH[_T.get(phase, len(_PH) - 1)]"]
+        fn = make_function(w, ["phase", "sev"], {}, body, {"_LOG": log, "_PH": phases, "_T": table})
+        from hypergraph import FunctionNode
+        if w == workers[0]:
+            nodes.append(FunctionNode(fn, name=w, output_name="phase"))  # the only worker that advances the shared state
+        else:
+            nodes.append(FunctionNode(fn, name=w, output_name=f"side_{w}"))
+    if spec["finish"] == "node":
+        nodes.append(tagged_node("finish", ["phase"], ["summary"], log))
+    rng = random.Random(spec["order_seed"])
+    rng.shuffle(nodes)
+    return Graph(nodes, name="machine"), log
+
+
+def gate_trace_violations(graph, log):
+    """Generic oracle from the C03 statement, on the execution log of ANY program: a gated node starts only if some
+    controlling gate's most recent decision names it, or a default-open controlling gate has not decided yet in this run."""
+    problems = []
+    ctl = graph.controlled_by
+    for pos, (name, _args) in enumerate(log.calls):
+        gates = ctl.get(name) or []
+        if not gates:
+            continue
+        ok = False
+        for g in gates:
+            prior = [d for p, gn, d in log.decisions if gn == g and p <= pos]
+            if not prior:
+                gnode = graph.nodes.get(g)
+                if gnode is not None and getattr(gnode, "default_open", True):
+                    ok = True
+                continue
+            last = prior[-1]
+            gnode = graph.nodes.get(g)
+            if isinstance(gnode, IfElseNode) and isinstance(last, bool):
+                last = gnode.when_true if last else gnode.when_false
+            if last is END or last is None:
+                continue
+            if (name in last) if isinstance(last, list) else (last == name):
+                ok = True
+        if not ok:
+            problems.append(f"gated node {name} started (call #{pos}) although no controlling gate's latest decision names it and every controlling gate has already decided "
+                            f"(gates={gates}, decisions so far={[(gn, 'END' if d is END else d) for p, gn, d in log.decisions if p <= pos]})")
+    return problems
